@@ -2552,10 +2552,14 @@ def check_C11(ctx: Ctx) -> None:
             if lim < 3:
                 continue
             want = impl.run_par("flat", False, "seek", b[:lim]).rsplit(" ", 1)[0]
-            for kind in ("raw", "buffered"):
+            for kind in ("raw", "buffered", "buffered-small"):
                 src = StallSource(b, lim, chunk=r.choice([1, 2, 3, 7, 1 << 16]))
                 if kind == "buffered":
                     src = io.BufferedReader(src)
+                elif kind == "buffered-small":
+                    # a source whose own buffer is smaller than the parser's and already holds everything delivered
+                    # when the parser's first fill comes (its readinto1 would then go to the transport again)
+                    src = io.BufferedReader(StallSource(b, lim), buffer_size=r.choice([4, 16, lim, lim + 1, 2 * lim + 5, 4096]))
                 evs = []
                 try:
                     for ev in parse_jelly_flat(src):
